@@ -233,3 +233,45 @@ func (h *C03Host) Queued(k int) []*com.Packet {
 	}
 	return r
 }
+
+// ---- hand-over of a device's queue to its host's connection (Channel mode with a tag naming it)
+
+// C03ListenerHandOver queues pre for dev on its own Session, lets the Listener redirect that
+// Session to the sender queue of host (Listener.clientSet, what (*conn).resolve does with o = true),
+// queues post, and returns what the host's queue then holds (in order) and what is stranded.
+func (w *C03World) C03ListenerHandOver(dev, host device.ID, pre, post []*com.Packet) (redirected, stranded []*com.Packet) {
+	v, h := w.srv.sessions[dev.Hash()], w.srv.sessions[host.Hash()]
+	for _, n := range pre {
+		v.queue(n)
+	}
+	w.lis.clientSet(dev.Hash(), h.sender())
+	for _, n := range post {
+		v.queue(n)
+	}
+	for len(h.send) > 0 {
+		redirected = append(redirected, <-h.send)
+	}
+	for len(v.send) > 0 {
+		stranded = append(stranded, <-v.send)
+	}
+	return
+}
+
+// C03ProxyHandOver is the same on a Proxy: proxied client k is redirected to the queue of client j.
+func (h *C03Host) C03ProxyHandOver(k, j int, pre, post []*com.Packet) (redirected, stranded []*com.Packet) {
+	v, t := h.pcs[k], h.pcs[j]
+	for _, n := range pre {
+		v.queue(n)
+	}
+	h.s.proxy.clientSet(v.ID.Hash(), t.sender())
+	for _, n := range post {
+		v.queue(n)
+	}
+	for len(t.send) > 0 {
+		redirected = append(redirected, <-t.send)
+	}
+	for len(v.send) > 0 {
+		stranded = append(stranded, <-v.send)
+	}
+	return
+}
